@@ -1,6 +1,6 @@
 (* C16 - only supported manifest files are checked, each by its own
    ecosystem's rules.  Statements only; proofs are in Proofs/DetectProofs.v. *)
-From VL Require Import Lib.Bytes Lib.Reg Model.Detect Spec.UriClass Proofs.DetectProofs.
+From VL Require Import Lib.Bytes Lib.Reg Model.Detect Spec.UriClass Proofs.DetectProofs Proofs.ResolverProofs.
 
 (* For every URI (any byte string), the model of detect_parser_type - built on
    the tables regenerated from src/parser/types.rs - answers exactly what the
@@ -24,6 +24,12 @@ Proof. exact from_str_as_str. Qed.
 Theorem C16_registry_names_injective : forall r1 r2, as_str r1 = as_str r2 -> r1 = r2.
 Proof. exact as_str_injective. Qed.
 
+(* every ecosystem is wired to its own parser and matcher and to the registry its
+   packages come from (table regenerated from src/lsp/resolver.rs and the components) *)
+Theorem C16_resolver_consistent :
+  forall k, exists p m g, lookup k = Some (p, m, g) /\ p = k /\ m = k /\ g = source_of k.
+Proof. exact resolver_consistent. Qed.
+
 (* non-vacuity: the classes are inhabited, including the look-alikes *)
 Example C16_ex_workflow :
   detect [47;114;47;46;103;105;116;104;117;98;47;119;111;114;107;102;108;111;119;115;47;99;105;46;121;109;108]
@@ -43,3 +49,4 @@ Print Assumptions C16_oracle_sound.
 Print Assumptions C16_oracle_complete.
 Print Assumptions C16_registry_names_roundtrip.
 Print Assumptions C16_registry_names_injective.
+Print Assumptions C16_resolver_consistent.
